@@ -413,3 +413,46 @@ def composed_model_tie(chk, cases):
                                "file_hex": c["bytes"], "pcm": c.get("expect"), "cfg": cfg, "model": r}, no_input=True)
     out["composed_model_mismatching_files"] = bad
     return out
+
+
+
+def composed_prefix_tie(chk, cases):
+    """The bytes a writer has put on its sink BEFORE finalize (kind e2e_prefix: provisional metadata region + the
+    frames of every whole block written so far) must be the composed model's `stream` after the same writes — the
+    object the theorems C14_end_to_end_interrupted / C14_sample_writer_interrupted speak about."""
+    sel = [c for c in cases if c.get("kind") == "e2e_prefix" and isinstance(c.get("cfg"), dict)]
+    out = {"composed_model_unfinished_streams": 0, "composed_model_unfinished_streams_byte_exact": 0,
+           "composed_model_unfinished_incomplete_oracle_differences": 0, "composed_model_unfinished_mismatching": 0}
+    if not sel:
+        return out
+    exe = build_e2e_driver(chk)
+    if exe is None:
+        return out
+    data = "\n".join(json.dumps(c) for c in sel) + "\n"
+    rc, o = vlib.sh("ulimit -s unlimited 2>/dev/null; %s" % exe, timeout=1800, stdin=data)
+    lines = [l for l in o.splitlines() if l.startswith("{")]
+    if len(lines) != len(sel):
+        chk.broken_tie("composed-model-run", "the composed-model driver did not answer every unfinished-stream case")
+        return out
+    bad = 0
+    for c, l in zip(sel, lines):
+        r = json.loads(l)
+        out["composed_model_unfinished_streams"] += 1
+        why = None
+        if r.get("end") != "ok":
+            why = "the model ends with %s where the implementation wrote a stream" % r.get("end")
+        elif r["match"]:
+            out["composed_model_unfinished_streams_byte_exact"] += 1
+        elif not r["complete_oracle"]:
+            out["composed_model_unfinished_incomplete_oracle_differences"] += 1
+        else:
+            why = "first difference at byte %d (model %d bytes, implementation %d bytes, metadata region %d bytes)" % (r["first_diff"], r["model_len"], r["file_len"], r["meta_len"])
+        if why:
+            bad += 1
+            if bad <= 3:
+                chk.violation("tie:composed-model-unfinished-stream",
+                              "what the writer has put on the sink before finalize is no longer what the composed Coq model's `stream` holds after the same writes: %s" % why,
+                              {"stage": "composed-model-correspondence", "theorem": "C14_sample_writer_interrupted / C14_end_to_end_interrupted (coq/e2e/Props_E2E.v)",
+                               "stream_hex": c["bytes"], "pcm": c.get("expect"), "cfg": c["cfg"], "writer": c.get("writer"), "model": r}, no_input=True)
+    out["composed_model_unfinished_mismatching"] = bad
+    return out
